@@ -7,8 +7,16 @@ def run(res):
     # overlapping waits of different lengths against uneven dt: the shared resetting timer must agree with
     # per-coroutine time (TimerInvariant, WakeExactlyOnTime); coroutines are started at any time, in any order
     S3 = {'g1': (('y', 2), ('y', 0), ('y', 3)), 'g2': (('y', 0), ('y', 3), ('y', -1)), 'g3': (('y', 1), ('y', 1))}
-    K = dict(G=('g1', 'g2', 'g3'), Script=S3, Dts={0, 1, 2}, MaxTimer=8, WithKill=False, StartCancelsPendingKill=True, FinishDropsKillMark=True)
+    K = dict(G=('g1', 'g2', 'g3'), Script=S3, Dts={0, 1, 2}, MaxTimer=8, WithKill=False, StartCancelsPendingKill=True, FinishDropsKillMark=True, BodyExceptionCleansUp=True)
     cc.check_and_replay(res, 'c08_timing', K, depth_all=5 if th else 4, walks=20000 if th else 3000, walk_len=40)
+    # an exception escaping a coroutine body (Quit / SwitchWorld are raised from coroutines by design): the frame is
+    # abandoned, the next frame advances everybody again, relative order kept
+    Sr = {'g1': (('y', 0), ('y', 0), ('y', 1)), 'g2': (('y', 0), ('raise', 0)), 'g3': (('y', 2), ('y', 0), ('raise', 0))}
+    Kr = dict(K, Script=Sr, Dts={1, 2}, WithKill=False)
+    cc.check_and_replay(res, 'c08_body_raises', Kr, depth_all=0, walks=10000 if th else 1500, walk_len=30)
+    Kx = dict(Kr, BodyExceptionCleansUp=False)
+    res.model_check_py('Coroutines', 'c08_asimpl_body_exception', Kx, invariants=cc.INVARIANTS, properties=cc.PROPERTIES,
+                       expect_violation=('SentinelFirst', 'StateCoherent', 'StructuresAgree', 'OneStepPerFrame', 'NoBad'), count=False)
     # (B) recorded executions: 7 coroutines with random scripts (waits up to 7, in-body start/kill), random schedules
     for i in range(4 if th else 2):
         res.seed += i
@@ -17,5 +25,5 @@ def run(res):
     if th:
         # longer waits, dt up to 4, kills in the mix: model checking only (too large to dump)
         S3b = {'g1': (('y', 2), ('y', 5), ('y', 0)), 'g2': (('y', 3), ('y', 0), ('y', 1)), 'g3': (('y', 1), ('y', 2), ('y', 3))}
-        Kb = dict(G=('g1', 'g2', 'g3'), Script=S3b, Dts={0, 1, 2, 4}, MaxTimer=12, WithKill=True, StartCancelsPendingKill=True, FinishDropsKillMark=True)
+        Kb = dict(G=('g1', 'g2', 'g3'), Script=S3b, Dts={0, 1, 2, 4}, MaxTimer=12, WithKill=True, StartCancelsPendingKill=True, FinishDropsKillMark=True, BodyExceptionCleansUp=True)
         cc.check_and_replay(res, 'c08_timing_large', Kb, dump=False)
